@@ -4,6 +4,8 @@ import LenaModel.Lemmas.C07Update
 import LenaModel.Lemmas.C07Nested
 import LenaModel.Lemmas.C07Level
 import LenaModel.Lemmas.C07Tok
+import LenaModel.Lemmas.C07Ext
+import LenaModel.Lemmas.C07Mut
 /-! # C07 — property theorems (nested-dictionary algebra)
 
 Dictionaries are slot vectors over the key alphabet of a case (`Model/Val.lean`); all theorems are
@@ -831,5 +833,335 @@ example : toksV (diffTV (fun i => i != 0) (-1)
       (.dict 0 [some (.leaf [] 7), some (.dict 1 [some (.leaf [2] 8), some (.dict 3 [none, none])])])
       (.dict [some (.leaf 7), some (.dict [some (.leaf 8), some (.leaf 9)])]) 4).1 =
       (.dict [none, some (.dict [none, some (.dict [none, none])])] : Val Nat) := by decide +kernel
+
+
+/-! ## update_recursively with a string `other` and with `value` -/
+
+omit [DecidableEq α] in
+/-- `str_to_dict("k.k1.….km", value)` is the chain of singletons with `value` at the end of the path -/
+theorem str_to_dict_value (n k : Nat) (ks : List Nat) (last : α) (v : Val α) :
+    strToDict n false (k :: ks) last (some v) = .ok (single n k (chain n ks v)) ∧
+    getPath (.dict (single n k (chain n ks v))) (k :: ks) = some v := by
+  refine ⟨by simp [strToDict], ?_⟩
+  rw [getPath_cons_some _ _ _ _ (getSlot_single_eq n k _)]
+  exact getPath_chain n ks v
+
+omit [DecidableEq α] in
+/-- the malformed calls of `str_to_dict` raise `LenaValueError`; `str_to_dict("")` is `{}` -/
+theorem str_to_dict_errors (n : Nat) (ks : List Nat) (k : Nat) (last : α) (v : Val α) :
+    strToDict n true ks last (some v) = .lenaValueError ∧
+    strToDict n true ks last none = .ok (Val.empty n) ∧
+    strToDict n false [k] last none = .lenaValueError ∧
+    strToDict n false (k :: ks ++ [k]) last none = .ok (single n k (chain n ks (.leaf last))) := by
+  refine ⟨by simp [strToDict], by simp [strToDict], by simp [strToDict], ?_⟩
+  cases ks with
+  | nil => simp [strToDict]
+  | cons h t =>
+    simp only [strToDict, List.cons_append]
+    rw [show h :: (t ++ [k]) = (h :: t) ++ [k] from rfl, List.dropLast_concat]
+    simp
+
+/-- `update_recursively(d, "k.k1.….km", value)` on a dictionary `d`: no error; `other` (the chain) is contained
+in the result; a scalar `value` sits at the path; every item that the path leaves alone is kept -/
+theorem update_str_value (n k : Nat) (ks : List Nat) (last : α) (v : Val α) (x : Slots α) :
+    updateRecursivelyX n (.dict x) (.str false (k :: ks) last) (some v) =
+      .ok (updL x (single n k (chain n ks v))) ∧
+    contained (-1) (single n k (chain n ks v)) (updL x (single n k (chain n ks v))) = true ∧
+    (∀ a, v = .leaf a → getPath (.dict (updL x (single n k (chain n ks v)))) (k :: ks) = some (.leaf a)) ∧
+    (∀ p, untouchedL (single n k (chain n ks v)) p = true →
+      getPath (.dict (updL x (single n k (chain n ks v)))) p = getPath (.dict x) p) := by
+  refine ⟨by simp [updateRecursivelyX, strToDict], update_contains _ _, ?_, fun p h => update_keeps _ _ p h⟩
+  intro a ha
+  subst ha
+  have hc := update_contains x (single n k (chain n ks (.leaf a)))
+  unfold contained at hc
+  simp only [show ¬ ((-1 : Int) = 0) by decide, if_false] at hc
+  exact getPath_leaf_of_contL (-1) _ _ _ a hc (str_to_dict_value n k ks last (.leaf a)).2
+
+omit [DecidableEq α] in
+/-- which paths the string form leaves alone: those that leave the key path at some position -/
+theorem update_str_leaves_alone (n k : Nat) (ks : List Nat) (v : Val α) (i j k0 : Nat) (q : List Nat)
+    (hi : i < (k :: ks).length) (hk : (k :: ks)[i]? = some k0) (hj : j ≠ k0) :
+    untouchedL (single n k (chain n ks v)) ((k :: ks).take i ++ j :: q) = true :=
+  untouched_chain n (k :: ks) v i j q k0 _ rfl hi hk hj
+
+example : updateRecursivelyX 3 (.dict [some (.leaf 5), some (.dict [none, some (.leaf 6), none]), none])
+    (.str false [1, 2] 9) (some (.leaf (7 : Nat))) =
+    .ok [some (.leaf 5), some (.dict [none, some (.leaf 6), some (.leaf 7)]), none] := by decide +kernel
+
+omit [DecidableEq α] in
+/-- the remaining argument forms: a `value` without a string `other` is a `LenaValueError` (whatever `d` is);
+two dictionaries give the value of `update_recursively` above; anything else a `LenaTypeError` -/
+theorem update_forms (n : Nat) (d o v : Val α) (x y : Slots α) :
+    updateRecursivelyX n d (.val o) (some v) = .lenaValueError ∧
+    updateRecursivelyX n (.dict x) (.val (.dict y)) none = .ok (updL x y) ∧
+    (isDict d = false ∨ isDict o = false → updateRecursivelyX n d (.val o) none = .lenaTypeError) := by
+  refine ⟨by simp [updateRecursivelyX], by simp [updateRecursivelyX], ?_⟩
+  intro h
+  cases d <;> cases o <;> simp_all [updateRecursivelyX, isDict]
+
+/-- an unknown keyword argument of `intersection` is a `LenaTypeError`; without one the call is the one above -/
+theorem intersection_kw (n : Nat) (lv : Int) (args : List (Val α)) :
+    intersectionKw n true lv args = .lenaTypeError ∧ intersectionKw n false lv args = intersection n lv args := by
+  unfold intersectionKw
+  cases intersection n lv args <;> simp
+
+/-! ## the `nested_dicts` test of update_nested -/
+
+/-- "recursive *other* is forbidden": on a (finite) nested dictionary the test `d in nested_dicts` never fires -/
+theorem nested_dicts_test_never_fires (k : Nat) (v : Val α) : mnV k [] v ≠ .lenaValueError :=
+  mnV_no_valueError k v [] (by simp)
+
+/-- `get_most_nested_subdict_with(key, other)` returns the dictionary `nestDepth` keys down, which has no `key`;
+`TypeError` exactly when a non-dictionary is met there -/
+theorem most_nested_spec (k : Nat) (v : Val α) :
+    (mnV k [] v = .typeError ↔ ∃ a, getPath v (List.replicate (nestDepth k v) k) = some (.leaf a)) ∧
+    (∀ r, mnV k [] v = .ok r →
+      getPath v (List.replicate (nestDepth k v) k) = some (.dict r) ∧ getSlot r k = none) :=
+  mnV_spec k _ v [] rfl (nested_dicts_test_never_fires k v)
+
+example : mnV 0 [] (.dict [some (.dict [none, some (.leaf (3 : Nat))]), some (.leaf 3)]) = .ok [none, some (.leaf 3)] := by
+  decide +kernel
+
+/-! ## the callers: LenaSplit._get_context, group_plots, Zip._create_context, _update_with_group -/
+
+/-- `LenaSplit._get_context` / the common context of `group_plots`: contained in every member, the greatest
+such dictionary, and every member is the common context updated with its own difference -/
+theorem split_context (truthy : α → Bool) (n : Nat) (ctxs : List (Slots α)) :
+    (∀ c ∈ ctxs, contained (-1) (splitGetContext n ctxs) c = true) ∧
+    (∀ g, ctxs ≠ [] → (∀ c ∈ ctxs, contained (-1) g c = true) → contained (-1) g (splitGetContext n ctxs) = true) ∧
+    ((∀ c ∈ ctxs, WFD n c) → ∀ c ∈ ctxs,
+      updL (splitGetContext n ctxs) (difference truthy (-1) c (splitGetContext n ctxs)) = c) :=
+  ⟨fun c hc => inter_lower n (-1) ctxs c hc, fun g hne hg => inter_greatest n (-1) ctxs g hne hg,
+   fun hw c hc => reconstruct_nary truthy n (-1) ctxs hw c hc⟩
+
+/-- `group_plots`: the group context is the common context except at `output.changed`, which holds `True`/`False` -/
+theorem group_context (truthy : α → Bool) (n o ch : Nat) (tt ff : α) (ctxs : List (Slots α)) :
+    (∃ b : Bool, getPath (.dict (groupPlotsContext truthy n o ch tt ff ctxs)) [o, ch] =
+        some (.leaf (if b then tt else ff))) ∧
+    (∀ (p : List Nat) (b : Bool), untouchedL (single n o (chain n [ch] (.leaf (if b then tt else ff)))) p = true →
+      getPath (.dict (groupPlotsContext truthy n o ch tt ff ctxs)) p =
+        getPath (.dict (splitGetContext n ctxs)) p) := by
+  constructor
+  · unfold groupPlotsContext
+    exact ⟨_, (update_str_value n o [ch] tt _ (interN n (-1) ctxs)).2.2.1 _ rfl⟩
+  · intro p b hp
+    unfold groupPlotsContext splitGetContext
+    refine update_keeps _ _ p ?_
+    -- the set of untouched paths does not depend on the leaf stored
+    revert hp
+    cases p with
+    | nil => simp [untouchedL]
+    | cons j q =>
+      by_cases hj : j = o
+      · subst hj
+        simp only [untouchedL, getSlot_single_eq, chain]
+        cases q with
+        | nil => simp [untouchedL]
+        | cons j' q' =>
+          by_cases hj' : j' = ch
+          · subst hj'; simp [untouchedL, getSlot_single_eq]
+          · simp [untouchedL, getSlot_single_ne _ _ _ _ hj']
+      · simp [untouchedL, getSlot_single_ne _ _ _ _ hj]
+
+/-- `Zip._create_context`: when it sets `context.zip`, the parts are the differences from the common context and
+every value is the common context updated with its part; `TypeError` exactly when some part is non-empty and the
+common context already has the key `zip` (the tuple of parts cannot take the previous value in) -/
+theorem zip_context (truthy : α → Bool) (n zipKey : Nat) (values : List (Slots α)) (hw : ∀ v ∈ values, WFD n v) :
+    (zipCreateContext truthy n zipKey values = .typeError ↔
+      (values.map (fun v => difference truthy 1 v (interN n 1 values))).any nonEmpty = true ∧
+      (getSlot (interN n 1 values) zipKey).isSome = true) ∧
+    (∀ z, zipCreateContext truthy n zipKey values = .ok z →
+      z.common = interN n 1 values ∧
+      (∀ ds, z.zip = some ds → ds = values.map (fun v => difference truthy 1 v z.common)) ∧
+      (∀ v ∈ values, updL z.common (difference truthy 1 v z.common) = v) ∧
+      (z.zip = none → ∀ v ∈ values, v = z.common)) := by
+  constructor
+  · unfold zipCreateContext
+    simp only []
+    split
+    · split <;> simp_all
+    · simp_all
+  · intro z hz
+    have hc : z.common = interN n 1 values := by
+      unfold zipCreateContext at hz
+      simp only [] at hz
+      split at hz
+      · split at hz
+        · cases hz
+        · cases hz; rfl
+      · cases hz; rfl
+    refine ⟨hc, ?_, ?_, ?_⟩
+    · intro ds hds
+      unfold zipCreateContext at hz
+      simp only [] at hz
+      split at hz
+      · split at hz
+        · cases hz
+        · cases hz; simp at hds; rw [← hds]
+      · cases hz; simp at hds
+    · intro v hv
+      rw [hc]
+      exact reconstruct_nary truthy n 1 values hw v hv
+    · intro hnone v hv
+      have hall : (values.map (fun v => difference truthy 1 v (interN n 1 values))).any nonEmpty = false := by
+        unfold zipCreateContext at hz
+        simp only [] at hz
+        split at hz
+        · split at hz
+          · cases hz
+          · cases hz; simp at hnone
+        · rename_i h; simpa using h
+      have hv' : nonEmpty (difference truthy 1 v (interN n 1 values)) = false := by
+        rw [List.any_eq_false] at hall
+        have := hall (difference truthy 1 v (interN n 1 values)) (List.mem_map.2 ⟨v, hv, rfl⟩)
+        simpa using this
+      have h1 := (diff_empty_iff truthy 1 v (interN n 1 values)).1 hv'
+      rw [hc]
+      exact cont_antisymm 1 n _ _ (hw v hv) (inter_wf n 1 values hw) h1 (inter_lower n 1 values v hv)
+
+/-- `_update_with_group`, the algebra step: if the common part of the new and the old intersection is in the
+context, then after the update with `difference(new, old)` the whole new intersection is -/
+theorem update_with_group_contains (truthy : α → Bool) (n : Nat) (ctx1 new old : Slots α)
+    (h : contained (-1) (interN n (-1) [new, old]) ctx1 = true) :
+    contained (-1) new (updL ctx1 (difference truthy (-1) new old)) = true := by
+  have hrec := reconstruct truthy n (-1) new old
+  unfold contained at *
+  simp only [show ¬ ((-1 : Int) = 0) by decide, if_false] at *
+  have := updL_mono (-1) (by decide) _ _ (difference truthy (-1) new old) h
+  rwa [hrec] at this
+
+/-- … in particular when the old intersection is contained in the context -/
+theorem update_with_group_contains_old (truthy : α → Bool) (n : Nat) (ctx1 new old : Slots α)
+    (h : contained (-1) old ctx1 = true) :
+    contained (-1) new (updL ctx1 (difference truthy (-1) new old)) = true :=
+  update_with_group_contains truthy n ctx1 new old
+    (cont_trans (-1) _ _ _ (inter_lower n (-1) [new, old] old (by simp)) h)
+
+/-- `_update_with_group` as a whole, when `output.changed` is not touched (no member and not the context has it):
+with the old intersection contained in the context, afterwards the new intersection is -/
+theorem update_with_group_result (truthy : α → Bool) (n o ch : Nat) (tt ff : α)
+    (ctx : Slots α) (newGrp : List (Slots α)) (oldInter : Slots α)
+    (hch : changed3 truthy ff (getRec2 ctx o ch :: newGrp.map (fun c => getRec2 c o ch)) = none)
+    (hold : contained (-1) oldInter ctx = true) :
+    contained (-1) (interN n (-1) newGrp) (updateWithGroup truthy n o ch tt ff ctx newGrp oldInter) = true := by
+  unfold updateWithGroup
+  simp only [hch]
+  exact update_with_group_contains_old truthy n ctx _ oldInter hold
+
+example : changed3 (fun i => i != 0) 0 [none, (none : Option (Val Nat))] = none ∧
+    changed3 (fun i => i != 0) 0 [some (.leaf 0), (none : Option (Val Nat))] = some false ∧
+    changed3 (fun i => i != 0) 0 [some (.leaf 0), some (.leaf (1 : Nat))] = some true := by decide +kernel
+
+private abbrev L' (n : Nat) : Option (Val Nat) := some (.leaf n)
+example : contained (-1) [L' 1, none] [L' 1, L' 5] = true ∧
+    updL [L' 1, L' 5] (difference (fun i => i != 0) (-1) [L' 1, L' 7] [L' 1, none]) = [L' 1, L' 7] := by
+  decide +kernel
+
+
+/-! ## what is mutated (write-log model, `Model/C07Mut.lean`)
+
+`intersection` and `difference` store only into dictionaries they created (`inter_is_copy`, `diff_objects`:
+their results consist of new objects and — for `difference` — untouched objects of `d1`).
+`update_recursively(d, other)` changes `d` in place by design; `update_nested(key, d, other)` changes `d` and
+one dictionary of `other` by design ("*other* is modified in general"). -/
+
+omit [DecidableEq α] in
+/-- the write-log model of `update_recursively` computes the value model's result (and raises when it does) -/
+theorem update_mut_value (d other : TVal α) (c : Nat) :
+    (updT d other c).map (fun st => eraseV st.val) =
+      match updateRecursively (eraseV d) (eraseV other) with
+      | .ok r => some (.dict r)
+      | _ => none := by
+  cases d with
+  | leaf ts a => cases other <;> simp [updT, updateRecursively, eraseV]
+  | dict t x =>
+    cases other with
+    | leaf ts a => simp [updT, updateRecursively, eraseV]
+    | dict u y => simp [updT, updateRecursively, eraseV, erase_updTL]
+
+omit [DecidableEq α] in
+/-- `update_recursively(d, other)` stores only into `d` itself, into dictionaries reachable from `d`, and into
+dictionaries it created (`{}` put in place of a scalar) … -/
+theorem update_writes (t : Nat) (x y : TSlots α) (c : Nat) :
+    ∀ w ∈ (updTL t x y c).log, w = t ∨ w ∈ dictToksL x ∨ c ≤ w :=
+  (updTL_log t x y c).2
+
+omit [DecidableEq α] in
+/-- … hence never into an object of `other` (when `other` is separate from `d` and existed before the call) -/
+theorem update_never_writes_other (t : Nat) (x y : TSlots α) (u c : Nat)
+    (hsep : ∀ w ∈ toksV (.dict u y), w < c ∧ w ≠ t ∧ w ∉ dictToksL x) :
+    ∀ w ∈ (updTL t x y c).log, w ∉ toksV (.dict u y) := by
+  intro w hw hmem
+  obtain ⟨h1, h2, h3⟩ := hsep w hmem
+  rcases update_writes t x y c w hw with h | h | h
+  · exact h2 h
+  · exact h3 h
+  · omega
+
+omit [DecidableEq α] in
+/-- afterwards `d` consists of its own objects, of objects of `other` (stored as they are, not copied: later
+changes of `other` show through) and of new dictionaries -/
+theorem update_objects (t : Nat) (x y : TSlots α) (c : Nat) :
+    ∀ w ∈ toksL (updTL t x y c).val, w ∈ toksL x ∨ w ∈ toksL y ∨ c ≤ w :=
+  updTL_from t x y c
+
+-- `update_recursively({"a": 1, "b": {}}, {"a": {"a": 2}, "b": {"a": [..]}})`, objects 0..5 exist: written are d (0),
+-- the new dictionary 6 that replaces the scalar, and d's own sub-dictionary 1; the list 5 of `other` is shared
+example : (updTL 0 [some (.leaf [] 1), some (.dict 1 [none, none])]
+      [some (.dict 3 [some (.leaf [] 2), none]), some (.dict 4 [some (.leaf [5] 3), none])] 6).log = [0, 6, 1] ∧
+    toksL (updTL 0 [some (.leaf [] (1 : Nat)), some (.dict 1 [none, none])]
+      [some (.dict 3 [some (.leaf [] 2), none]), some (.dict 4 [some (.leaf [5] 3), none])] 6).val = [6, 1, 5] := by
+  decide +kernel
+
+/-- `difference` changes nothing: every dictionary object in its result is new, or is an object of `d1` with
+everything below it exactly as in `d1` ("d1 and d2 remain unchanged; d1 or some of its subdictionaries may be
+returned directly") -/
+theorem diff_old_objects_intact (truthy : α → Bool) (lv : Int) (v : TVal α) (w : Val α) (c : Nat) :
+    ∀ s ∈ subsV (diffTV truthy lv v w c).1, s ∈ subsV v ∨ IsNew c s :=
+  diffTV_intact truthy lv v w c
+
+omit [DecidableEq α] in
+/-- `update_recursively` passes the objects of `other` on as they are: a dictionary object of `d` afterwards is
+an object of `other` with everything below it unchanged, or one of `d`'s own dictionaries, or new -/
+theorem update_other_objects_intact (t : Nat) (x y : TSlots α) (c : Nat) :
+    ∀ s ∈ subsL (updTL t x y c).val,
+      s ∈ subsL y ∨ (∃ u, rootTok s = some u ∧ (u ∈ dictToksL x ∨ c ≤ u)) :=
+  updTL_intact t x y c
+
+omit [DecidableEq α] in
+/-- the write-log model of `update_nested` computes the value model's result (`none` = `TypeError`) -/
+theorem update_nested_mut_value (k td : Nat) (x : TSlots α) (to : Nat) (y : TSlots α) :
+    toOut ((updateNestedT k td x to y).map (fun p => match p.1 with
+      | .dict _ l => eraseL l
+      | .leaf _ _ => [])) = updateNested k (eraseL x) (eraseL y) :=
+  erase_updateNestedT k td x to y
+
+omit [DecidableEq α] in
+/-- `update_nested(key, d, other)` stores into `d` (one item), and — when `d` had the key — into exactly one
+dictionary of `other`: the most nested one along `key` (one item); nothing is written when it raises -/
+theorem update_nested_writes (k td : Nat) (x : TSlots α) (to : Nat) (y : TSlots α) (d' : TVal α) (log : List Nat)
+    (h : updateNestedT k td x to y = some (d', log)) :
+    (getSlotT x k = none ∧ log = [td]) ∨
+    (∃ w, (getSlotT x k).isSome = true ∧ log = [w, td] ∧ (w = to ∨ w ∈ dictToksL y)) := by
+  unfold updateNestedT at h
+  cases hk : getSlotT x k with
+  | none =>
+    rw [hk] at h
+    simp only [Option.some.injEq, Prod.mk.injEq] at h
+    exact Or.inl ⟨rfl, h.2.symm⟩
+  | some dk =>
+    rw [hk] at h
+    simp only [] at h
+    cases hn : nestTL k dk to k y with
+    | none => rw [hn] at h; simp at h
+    | some p =>
+      rw [hn] at h
+      simp only [Option.some.injEq, Prod.mk.injEq] at h
+      exact Or.inr ⟨p.2, rfl, h.2.symm, nestTL_written k dk to k y p.1 p.2 (by rw [hn])⟩
+
+-- `update_nested("k0", {"k0": 1}, {"k0": {"k1": 3}})`, d = object 0, other = 1, other["k0"] = 2: written are 2 and 0
+example : (updateNestedT 0 0 [some (.leaf [] (1 : Nat)), none] 1 [some (.dict 2 [none, some (.leaf [] 3)]), none]).map
+    (fun p => p.2) = some [2, 0] := by decide +kernel
 
 end Lena.C07
